@@ -65,13 +65,13 @@ func (rr *raceRun) closerAt() string {
 			return closerSyms[i]
 		}
 	}
-	if GoroutinesMatching("closeLocked", "Group).Wait") > 0 {
+	if CountIn(GoroutineDump(), "closeLocked", "Group).Wait") > 0 {
 		return "blocked"
 	}
 	return ""
 }
 
-func readerGone() bool { return GoroutinesMatching("startReadAndHandle") == 0 }
+func readerGone() bool { return CountIn(GoroutineDump(), "startReadAndHandle") == 0 }
 
 func (rr *raceRun) discAt() string {
 	if !rr.dStarted {
@@ -85,7 +85,7 @@ func (rr *raceRun) discAt() string {
 	if readerGone() {
 		return "done"
 	}
-	if GoroutinesMatching("readDisconnected", "Group).Wait") > 0 || GoroutinesMatching("readDisconnected", "sync.(*Mutex).Lock") > 0 {
+	if CountIn(GoroutineDump(), "readDisconnected", "Group).Wait") > 0 || CountIn(GoroutineDump(), "readDisconnected", "sync.(*Mutex).Lock") > 0 {
 		return "blocked"
 	}
 	return ""
